@@ -210,8 +210,14 @@ type SRun struct {
 }
 
 // NewSRun starts a server for the case.
-func NewSRun(c SCase) (*SRun, error) {
+func NewSRun(c SCase) (*SRun, error) { return NewSRunOpts(c, false) }
+
+// NewSRunOpts: noCheck builds the server with DisableRIBCheckFn (entries are installed without reference checks).
+func NewSRunOpts(c SCase, noCheck bool) (*SRun, error) {
 	opts := []server.ServerOpt{}
+	if noCheck {
+		opts = append(opts, server.DisableRIBCheckFn())
+	}
 	names := []string{}
 	for _, v := range c.VRFs {
 		names = append(names, NINames[v])
@@ -289,12 +295,44 @@ func (x *SRun) Step(st SStep) SObs {
 		err = s.Abort()
 	case "sendfail":
 		err = s.SendFail()
+	case "abortsend":
+		err = s.AbortWhileAnswering()
 	case "sendfailbatch":
 		m := &spb.ModifyRequest{}
 		for _, op := range st.Ops {
 			m.Operation = append(m.Operation, op.Proto())
 		}
 		rs, err = s.SendFailDuring(m, st.Cut)
+	case "getcutw":
+		// a Get whose reader stalls and then goes away, while a write of session S is already waiting for the
+		// instance (a queued writer makes any second read acquisition of the same lock wait behind it)
+		type gres struct {
+			items []*spb.AFTEntry
+			gerr  error
+			hang  string
+		}
+		gch := make(chan gres, 1)
+		go func() {
+			items, gerr, hang := x.D.DoGetStall(st.Get.GetReq(), st.Cut, time.Duration(st.Stall)*time.Millisecond)
+			gch <- gres{items, gerr, hang}
+		}()
+		time.Sleep(time.Duration(st.Stall) * time.Millisecond / 3)
+		m := &spb.ModifyRequest{}
+		for _, op := range st.Ops {
+			m.Operation = append(m.Operation, op.Proto())
+		}
+		if s != nil {
+			rs, err = s.SendBarrier(m)
+		}
+		select {
+		case g := <-gch:
+			o.Hang, o.GetOK, o.GetItems = g.hang, g.gerr == nil, g.items
+		case <-time.After(2 * Watchdog):
+			o.Hang = "HANG: the abandoned Get did not return"
+		}
+		if o.Hang == "" {
+			o.Hang = x.waitLocksFree()
+		}
 	case "getcut":
 		items, gerr, hang := x.D.DoGetStall(st.Get.GetReq(), st.Cut, time.Duration(st.Stall)*time.Millisecond)
 		o.Hang = hang
@@ -450,8 +488,12 @@ func (st SStep) Coq(o SObs) string {
 		return fmt.Sprintf("SIn (Msg _ %d (MOps _ %s))", st.S, CoqList(ops))
 	case "close":
 		return fmt.Sprintf("SIn (HalfClose _ %d)", st.S)
-	case "abort", "sendfail":
+	case "abort", "sendfail", "abortsend":
 		return fmt.Sprintf("SIn (Abort _ %d)", st.S)
+	case "getcutw":
+		w := st
+		w.K = "ops"
+		return "SGet " + st.Get.coq() + "; " + w.Coq(o)
 	case "getcut":
 		return "SGet " + st.Get.coq()
 	case "flush":
@@ -545,9 +587,13 @@ func (o SObs) Coq(st SStep) string {
 	switch st.K {
 	case "flush":
 		return "OFlush " + o.FlushSt
+	case "getcutw":
+		w := st
+		w.K = "ops"
+		return "OAny; " + o.Coq(w)
 	case "getcut":
 		return "OAny"
-	case "sendfail":
+	case "sendfail", "abortsend":
 		// a response could not be written: Modify returns Internal; the model has one "went away" step
 		e := o.End
 		if e != nil && e.Code == codes.Internal {
